@@ -270,7 +270,8 @@ def c03_cases(res):
                                       users=[dict(name="zed", nick="zed", password="topsecret", mask="z*!~zed@127.0.0.?")])))
     prefixes = [[], ["PASS secret1"], ["PASS topsecret"], ["PASS wrongpw"], ["NICK zed"], ["USER zed 8 * :Z"],
                 ["CAP LS 302", "NICK zed", "USER zed 8 * :Z"], ["PASS secret1", "NICK zed"], ["PASS topsecret", "USER zed 8 * :Z"],
-                ["CAP LS 302"], ["NICK bob"], ["USER zed 8 * :Z", "NICK bob"]]
+                ["CAP LS 302"], ["NICK bob"], ["USER zed 8 * :Z", "NICK bob"],
+                ["CAP REQ :sasl"], ["CAP REQ"], ["CAP REQ :multi-prefix", "NICK zed"], ["CAP REQ :sasl", "NICK zed", "USER zed 8 * :Z"]]
     finishers = [["NICK zed", "USER zed 8 * :Z", "CAP END"], ["PASS secret1", "NICK zed", "USER zed 8 * :Z", "CAP END"],
                  ["PASS topsecret", "USER zed 8 * :Z", "NICK zed", "CAP END"]]
     traces = []
@@ -392,6 +393,19 @@ def c03_oracle(t, steps):
                 last = e[2].split(" ", 1)[1]
         if last != need:
             fails.append(("connection 1 completed registration with password %r while %r is required" % (last, need), {"step": k001}))
+    if got001:
+        # an opened capability negotiation (CAP LS / CAP REQ, accepted or not) must have been ended before the welcome
+        k001 = min(s["k"] for s in steps for c, ls in (s.get("out") or {}).items() if c == "1" for l in ls if " 001 " in l[:40])
+        opened = False
+        for e in t.events[:k001 + 1]:
+            if e[0] == "L" and e[1] == 1 and isinstance(e[2], str):
+                w = e[2].upper().split()
+                if len(w) >= 2 and w[0] == "CAP" and w[1] in ("LS", "REQ"):
+                    opened = True
+                elif len(w) >= 2 and w[0] == "CAP" and w[1] == "END":
+                    opened = False
+        if opened:
+            fails.append(("connection 1 completed registration while the capability negotiation it opened was not ended (no CAP END)", {"step": k001}))
     if got001 and mask == "zed!*@10.*":
         nick_at_reg = [d for s in steps for d in [s.get("dump")] if d]
         fails.append(("connection 1 registered although the configured user mask %r cannot match a loopback client" % mask, {}))
@@ -409,7 +423,7 @@ def check_C03(res):
     res.coverage.update({
         "evaluations": r["steps"], "distinct_nontrivial": distinct,
         "rule": "finite sweep: 5 configurations (no password / server password / configured user with password / with non-matching mask / with "
-                "matching mask and both passwords) x 12 registration-progress prefixes x %d probe lines (every verb, malformed and unknown lines); "
+                "matching mask and both passwords) x 16 registration-progress prefixes (incl. a refused / bare / accepted CAP REQ as the first CAP command) x %d probe lines (every verb, malformed and unknown lines); "
                 "quick tier runs a fixed third of the cells plus the cells JOIN/PRIVMSG/WHO; each trace then finishes registration in one of 3 orders; "
                 "distinct = distinct (config, prefix, probe) cells; plus %d random registration-heavy traces" % (len(ALL_VERB_LINES), extra),
         "exhaustive": res.tier == "thorough",
@@ -536,8 +550,10 @@ def msg_expected(dump, actor, verb, targets, text):
                 continue
             if flags:
                 aud = set()
+                # the members HOLDING the addressed status (their own rank flags, not the server's rank lists)
+                letter = {"~": "q", "&": "a", "@": "o", "%": "h", "+": "v"}
                 for f in flags:
-                    aud |= set(ch[RANKSET[f]])
+                    aud |= set(n for n, fl in ch["users"].items() if letter[f] in fl)
             else:
                 aud = set(ch["users"])
             for n in aud:
@@ -623,6 +639,26 @@ def msg_sweep(res):
                 t.line(sender, "NOTICE @%#r,#r,alice,@%#r :dup")
             t.meta = {"flags": fl, "banned": banned}
             traces.append(t)
+    # status-prefixed targets after the rank holders changed their nicks (and strangers took the old ones)
+    for variant in range(2 if res.tier == "quick" else 6):
+        cfg = Config(channels=[dict(name="#r", flags="", founders=["alice"], protecteds=["bob"], operators=["carol"], half_operators=["dave"], voices=["erin", "carol"])])
+        t = Trace("msg-rename-%d" % variant, cfg)
+        names = ["alice", "bob", "carol", "dave", "erin", "frank"]
+        for c, n in enumerate(names):
+            t.register(c, n)
+            t.line(c, "JOIN #r")
+        order = list(range(5))
+        rng.shuffle(order)
+        for c in order:
+            t.line(c, "NICK %s2" % names[c])
+        # strangers take the freed nicks and stay outside
+        for k2, c in enumerate(order[:3]):
+            t.register(6 + k2, names[c])
+        for pf in ["+", "%", "@", "&", "~", "+%", "@+", "~&@%+"]:
+            t.line(5, "PRIVMSG %s#r :to %s after the renames" % (pf, pf))
+            t.line(order[0], "NOTICE %s#r :from a renamed member to %s" % (pf, pf))
+        t.meta = {"renamed": [names[c] for c in order]}
+        traces.append(t)
     return traces
 
 
@@ -825,16 +861,18 @@ def c16_traces(res):
     traces = []
     exits = ["PART", "KICKSELF", "QUIT", "CLOSE", "KILL", "KICKED"]
     k = 0
-    for pre in (False, True):
+    for pre, swap in ((False, False), (True, False), (False, True), (True, True)):
         for e1 in exits:
             for e2 in exits:
+                if swap and e2 not in ("KICKSELF", "PART", "CLOSE"):
+                    continue
                 k += 1
                 cfg = Config(operators=[dict(name="admin", password="operpass")],
                              channels=[dict(name="#pre", topic="Pre", flags="nt", key="k1", limit=5, ban=["x!*@*"],
                                             voices=["bob"], founders=["alice"])] if pre else [])
                 ch = "#pre" if pre else "#life"
                 key = " k1" if pre else ""
-                t = Trace("c16-%d-%s-%s" % (pre, e1, e2), cfg)
+                t = Trace("c16-%d%d-%s-%s" % (pre, swap, e1, e2), cfg)
                 t.register(0, "alice")
                 t.register(1, "bob")
                 t.register(2, "admin")
@@ -859,16 +897,22 @@ def c16_traces(res):
                         t.line(2, "KILL %s :bye" % nick)
                     elif how == "KICKED":
                         t.line(other_cid, "KICK %s %s" % (ch, nick))
-                leave(1, "bob", e1, 0)
-                t.line(2, "LIST")
-                leave(0, "alice", e2, 1)
+                if swap:
+                    # the founder goes first, so that the last member is a plain operator (who may kick himself)
+                    leave(0, "alice", e1, 1)
+                    t.line(2, "LIST")
+                    leave(1, "bob", e2, 0)
+                else:
+                    leave(1, "bob", e1, 0)
+                    t.line(2, "LIST")
+                    leave(0, "alice", e2, 1)
                 t.line(2, "LIST")
                 t.line(2, "MODE " + ch)
                 t.line(2, "JOIN " + ch + key)
                 t.line(2, "MODE " + ch)
                 t.line(2, "TOPIC " + ch)
                 t.line(2, "NAMES " + ch)
-                t.meta = {"pre": pre, "exits": [e1, e2]}
+                t.meta = {"pre": pre, "founder_leaves_first": swap, "exits": [e1, e2]}
                 traces.append(t)
     return traces
 
